@@ -3,7 +3,9 @@ package props
 import (
 	"bytes"
 	"fmt"
+	"os"
 	"slices"
+	"strings"
 	"sync"
 
 	"github.com/fluhus/biostuff/align"
@@ -28,6 +30,7 @@ func init() {
 	Hidden["race-sequtil"] = raceBodySequtil
 	Hidden["race-C15"] = raceBodyC15
 	Hidden["race-align"] = raceBodyAlign
+	Hidden["race-align-affine"] = raceBodyAlignAffine
 	Hidden["race-C17"] = raceBodyC17
 	Hidden["race-C20"] = raceBodyC20
 }
@@ -47,10 +50,22 @@ func racePass(r *core.Run, body, what string) {
 				return core.OK("harness-error", false)
 			}
 			if code != 0 {
-				return core.Failf("free-running -race pass %s exited %d:\n%s", body, code, tailLines(out, 30))
+				// said at once as well: should a later clause bring the process down, this explanation is in the log
+				fmt.Fprintf(os.Stderr, "race pass %s failed (exit %d):\n%s\n", body, code, headTail(out, 24, 12))
+				r.OneWorkerFromNow()
+				return core.Failf("free-running -race pass %s exited %d:\n%s", body, code, headTail(out, 24, 12))
 			}
 			return core.Outcome{Class: "clean", Nontrivial: true, Evals: 8}
 		})
+}
+
+// headTail: the first report of a -race run names the racing accesses, the last lines say how it ended.
+func headTail(s string, h, t int) string {
+	l := strings.Split(strings.TrimRight(s, "\n"), "\n")
+	if len(l) <= h+t {
+		return strings.Join(l, "\n")
+	}
+	return strings.Join(l[:h], "\n") + fmt.Sprintf("\n... (%d lines) ...\n", len(l)-h-t) + strings.Join(l[len(l)-t:], "\n")
 }
 
 func runParallel(n int, f func(g int) string) int {
@@ -233,6 +248,47 @@ func raceBodyAlign() int {
 		return 1
 	}
 	return rc
+}
+
+// raceBodyAlignAffine: matrices with a non-zero gap-open score. The oracle is differential: what each call
+// returned when it ran alone, before the goroutines started (the library's own answer, whatever it is),
+// must be what it returns next to 7 other callers working on different inputs of different sizes.
+func raceBodyAlignAffine() int {
+	ms := []align.SubstitutionMatrix{symMatrix(2, -1, -1, -1), symMatrix(1, -1, 0, -2), symMatrix(3, -2, -1, -0.5)}
+	type job struct {
+		a, b []byte
+		m    align.SubstitutionMatrix
+	}
+	var jobs []job
+	for i, pat := range []string{"ABCAB*12", "ABCCB*11+A", "AB*3", "CBA*20", "A", "", "ABBA*7+C", "CCAB*15"} {
+		jobs = append(jobs, job{expandSeq(pat), expandSeq([]string{"ABCCB*11+A", "BAC*9", "ABCAB*12", "B", "CABAC*5", "AB*3", "", "ABBA*7+C"}[i]), ms[i%len(ms)]})
+	}
+	type res struct {
+		gs, ls   string
+		gsc, lsc float64
+		lai, lbi int
+	}
+	run := func(j job) res {
+		var r res
+		var g, l []align.Step
+		g, r.gsc = align.Global(j.a, j.b, j.m)
+		l, r.lai, r.lbi, r.lsc = align.Local(j.a, j.b, j.m)
+		r.gs, r.ls = fmt.Sprint(g), fmt.Sprint(l)
+		return r
+	}
+	alone := make([]res, len(jobs))
+	for i, j := range jobs {
+		alone[i] = run(j)
+	}
+	return runParallel(8, func(g int) string {
+		for rep := 0; rep < 40; rep++ {
+			i := (g + rep) % len(jobs)
+			if got := run(jobs[i]); got != alone[i] {
+				return fmt.Sprintf("Global/Local(%q,%q) with gap-open %v next to other callers: %+v, alone: %+v", jobs[i].a, jobs[i].b, jobs[i].m[[2]byte{align.Gap, align.Gap}], got, alone[i])
+			}
+		}
+		return ""
+	})
 }
 
 func raceBodyC17() int {
